@@ -18,6 +18,7 @@ package compile
 
 //@ contract compileEnum
 //@   props C09
+//@   nomerge
 //@   requires src != nil
 //@   loop 1: invariant -1 <= ridx && ridx < len(src.Items)
 //@   loop 1: invariant len(items) == ridx + 1
